@@ -26,6 +26,9 @@ def _p(rng, base=None):
     if base is None:
         return round(math.exp(rng.uniform(math.log(0.5), math.log(900.0))), 4)
     r = rng.random()
+    if r < 0.02:
+        # a redenomination / extreme move: many orders of magnitude in one observation
+        return min(1e15, max(1e-6, float("%.6g" % (base * rng.choice([1e-11, 1e-8, 1e-4, 1e4, 1e8, 1e11])))))
     if r < 0.1:
         return base                    # flat stretch: zero returns
     return max(0.01, round(base * math.exp(rng.gauss(0.0, 0.03)), 4))
@@ -152,7 +155,14 @@ def _run(plan, ctx):
                                                                entries.get(a, 0) is not None and entries.get(a, 0) > start)).encode()))
                     if want is not None:
                         scale = max(abs(want), 1.0) if k != "sma" else abs(want)
-                        if not ctx.check("C16", close(got, want, scale=scale, rel=1e-9, abs_=1e-12),
+                        # the tolerance follows the conditioning of the *current* window: while an observation many
+                        # orders of magnitude away is inside it, return-based formulas lose that many digits; once
+                        # it has left, the answer must be tight again
+                        win = h[-(n + (0 if k == "sma" else 1)):]
+                        cond = (max(win) / min(win)) if win else 1.0
+                        if cond > 1e6:
+                            ctx.probe("window_spanning_more_than_six_orders_of_magnitude")
+                        if not ctx.check("C16", close(got, want, scale=scale, rel=1e-9 * max(1.0, cond), abs_=1e-12),
                                          "signal_value_differs_from_definition",
                                          lambda: {"signal": k, "asset": a, "lookback": n, "got": float(got),
                                                   "definition": want, "n_observations": len(h),
